@@ -13,7 +13,7 @@ NCPU = os.cpu_count() or 4
 
 CXX = "g++"
 FLAVORS = {
-    "asan": ["-std=c++17", "-O1", "-g", "-fsanitize=address,undefined", "-fno-sanitize-recover=all",
+    "asan": ["-std=c++17", "-O1", "-g", "-fsanitize=address,undefined,float-cast-overflow,float-divide-by-zero", "-fno-sanitize=float-divide-by-zero", "-fno-sanitize-recover=all",
              "-fno-omit-frame-pointer"],
     "plain": ["-std=c++17", "-O2"],
     "tsan": ["-std=c++17", "-O1", "-g", "-fsanitize=thread"],
